@@ -665,4 +665,55 @@ theorem Binder.run_pure (b : Binder) (hb : b.WF) (ops : List (List Field × Req)
 theorem Binder.empty_wf : (Binder.mk []).WF := by
   intro t d h; cases h
 
+/-! ## the five decoder caches behind the entry points -/
+
+/-- the `tag` whose decoders a cache holds -/
+def Slot.tag : Slot → Option Src
+  | .all => none | .query => some .query | .header => some .header | .form => some .form | .path => some .path
+
+/-- every entry point loads from and stores into the cache that belongs to its own tag -/
+theorem Api.slot_tag (a : Api) : (tagCache a.byTag).tag = a.byTag := by cases a <;> rfl
+
+/-- every cached decoder is the one `GetReqDecoder` builds for its type **with the tag of the cache it sits in** -/
+def TagBinder.WF (b : TagBinder) : Prop := ∀ s t d, (t, d) ∈ b.caches s → d = compileBy s.tag t
+
+theorem TagBinder.empty_wf : ({} : TagBinder).WF := by
+  intro s t d h; cases h
+
+theorem TagBinder.call_pure (b : TagBinder) (hb : b.WF) (a : Api) (t : List Field) (r : Req) :
+    (b.call a t r).1 = bindBy a.byTag t r ∧ (b.call a t r).2.WF := by
+  unfold TagBinder.call TagBinder.bindTag
+  cases h : (b.caches (tagCache a.byTag)).lookup t with
+  | none =>
+    refine ⟨rfl, ?_⟩
+    intro s t' d' hm
+    unfold TagBinder.store at hm
+    by_cases hs : s = tagCache a.byTag
+    · simp only [hs, if_true, List.mem_cons] at hm
+      rcases hm with hm | hm
+      · cases hm; rw [hs, Api.slot_tag]
+      · rw [hs]; exact hb _ t' d' hm
+    · simp only [hs, if_false] at hm
+      exact hb s t' d' hm
+  | some decs =>
+    have := hb _ t decs (lookup_mem _ _ _ h)
+    rw [Api.slot_tag] at this
+    subst this
+    exact ⟨rfl, hb⟩
+
+theorem TagBinder.run_pure (b : TagBinder) (hb : b.WF) (ops : List (Api × List Field × Req)) :
+    b.run ops = ops.map (fun o => bindBy o.1.byTag o.2.1 o.2.2) := by
+  induction ops generalizing b with
+  | nil => rfl
+  | cons o ops ih =>
+    obtain ⟨a, t, r⟩ := o
+    simp only [TagBinder.run, List.map_cons]
+    rw [(TagBinder.call_pure b hb a t r).1, ih _ (TagBinder.call_pure b hb a t r).2]
+
+/-- `Bind` through the entry-point model is the `bind` of the first part -/
+theorem bindBy_none (t : List Field) (r : Req) : bindBy none t r = Hertz.Bind.bind t r := by
+  unfold bindBy bindWithBy compileBy Hertz.Bind.bind compile
+  have : (compileFieldBy none) = compileField := by funext f; rfl
+  rw [this]
+
 end Hertz.Bind
